@@ -177,6 +177,50 @@ pub fn c15_cases(_rng: &mut Rng, tier: &str, out: &mut Out) {
             let _ = std::fs::remove_file(dir.join(format!("c15_{layers}_{t}_{}.mla", u8::from(single))));
         }
     }
+    // ONE file streamed as very many small CONTIGUOUS appends (a producer handing over 16 bytes at a time):
+    // the writer keeps an offset per non-contiguous RUN, not per block - 100 000 and 1 000 000 appends use the same memory
+    {
+        let run = |nblocks: usize| -> Result<usize, String> {
+            let (r, peak) = measure(|| -> Result<(), String> {
+                let mut cfg = ArchiveWriterConfig::new();
+                cfg.set_layers(layers_of(0));
+                let mut w = ArchiveWriter::from_config(CountSink(0), cfg).map_err(|e| format!("{e:?}"))?;
+                let id = w.start_file("stream").map_err(|e| format!("{e:?}"))?;
+                let piece = [0x5Au8; 16];
+                for _ in 0..nblocks {
+                    w.append_file_content(id, 16, &piece[..]).map_err(|e| format!("{e:?}"))?;
+                }
+                w.end_file(id).map_err(|e| format!("{e:?}"))?;
+                w.finalize().map_err(|e| format!("{e:?}"))?;
+                Ok(())
+            });
+            r.map(|_| peak)
+        };
+        let (small_n, big_n) = if tier == "thorough" { (100_000, 3_000_000) } else { (100_000, 1_000_000) };
+        let mut msg = None;
+        let mut meta = json!({"small_blocks": small_n, "big_blocks": big_n});
+        match (run(small_n), run(big_n)) {
+            (Ok(a), Ok(b)) => {
+                meta["peak_small"] = json!(a);
+                meta["peak_big"] = json!(b);
+                if b > a + (1 << 20) {
+                    msg = Some(format!("one file written as {big_n} contiguous appends of 16 bytes: peak live heap {b} bytes, {a} for {small_n} appends: memory grows with the number of BLOCKS, not of runs"));
+                }
+            }
+            (Err(e), _) | (_, Err(e)) => msg = Some(format!("writing failed: {e}")),
+        }
+        out.case(&Case {
+            id: "c15-manyblocks".into(),
+            model_fn: "",
+            args: vec![],
+            imp: json!([]),
+            oracle_ok: msg.is_none(),
+            oracle_msg: msg.unwrap_or_default(),
+            class: "one file, many contiguous blocks".into(),
+            nontrivial: true,
+            meta,
+        });
+    }
     // file ids are opaque u64 in the format: an archive whose only file carries a LARGE id (6 000 000, 2^40) is
     // linearly extracted and repaired within the same memory as with id 0 (the tables are per file, not per id)
     for (which, id) in [(0usize, 0u64), (1, 6_000_000), (2, 1 << 40)] {
